@@ -35,10 +35,15 @@ package protocol
 //@ spec func hdrOthersKept(h, k1, k2, k3) = forallStr(k, k != k1 && k != k2 && k != k3 ==> selStr(hdr, h, k) == old(selStr(hdr, h, k)))
 //@     && forall(h2, h2 != h ==> sel(hdr, h2) == old(sel(hdr, h2)))
 
+// the padding ranges the writers draw from (half-open [Min, Max)); established by the
+// package initialiser and never stored to afterwards (globalinv obligations)
+//@ globalinv C04 C10: authRequestPadding.Min == 256 && authRequestPadding.Max == 2048 && authResponsePadding.Min == 256 && authResponsePadding.Max == 2048
+//@ globalinv C04 C10: tcpRequestPadding.Min == 64 && tcpRequestPadding.Max == 512 && tcpResponsePadding.Min == 128 && tcpResponsePadding.Max == 1024
+
 //@ func (padding).String
-//@   props C10 C01 C02 C04
-//@   trusted
-//@   ensures len(ret) >= 0
+//@   props C04 C10
+//@   requires p.Min >= 0 && p.Max > p.Min && p.Max <= 1048576
+//@   ensures len(ret) >= p.Min && len(ret) < p.Max
 
 //@ func AuthRequestFromHeader
 //@   props C10 C01 C02
@@ -131,3 +136,86 @@ package protocol
 //@   ensures isnil(ret1) ==> base(ret0.Data) == base(msg) && off(ret0.Data) == off(msg) + 8 + vw(msg[8]) + sval(msg, 8)
 //@   ensures isnil(ret1) ==> len(ret0.Data) == len(msg) - 8 - vw(msg[8]) - sval(msg, 8)
 //@   modifies rpos, rlen, rdata, rbase, roff
+
+// ---------------------------------------------------------------------------
+// TCP request / response framing (C04).
+
+//@ ghost var wcalls Int
+//@ hook call Writer.Write(w2, b)
+//@   update wcalls = wcalls + 1
+
+// what the writer hands to its single Write call
+//@ spec func reqFrameOK(b, addr) = len(b) >= 2 + vlen(len(addr)) + len(addr) + 1
+//@     && vputAt(b, 0, 1025) && vputAt(b, 2, len(addr))
+//@     && forall(k, 0, len(addr), b[2 + vlen(len(addr)) + k] == addr[k])
+//@     && len(b) - (2 + vlen(len(addr)) + len(addr)) >= 65 && len(b) - (2 + vlen(len(addr)) + len(addr)) <= 513
+//@     && vputAt(b, 2 + vlen(len(addr)) + len(addr), len(b) - (2 + vlen(len(addr)) + len(addr)) - vlen(len(b) - (2 + vlen(len(addr)) + len(addr)) - 1) )
+//@ guard call Writer.Write(w2, b) in WriteTCPRequest
+//@   props C04
+//@   requires w2 == w && wcalls == old(wcalls) && len(b) == 2 + vlen(len(addr)) + len(addr) + vlen(padLenOf(b, addr)) + padLenOf(b, addr)
+//@       && vputAt(b, 0, 1025) && vputAt(b, 2, len(addr)) && forall(k, 0, len(addr), b[2 + vlen(len(addr)) + k] == addr[k])
+//@       && padLenOf(b, addr) >= 64 && padLenOf(b, addr) < 512 && vputAt(b, 2 + vlen(len(addr)) + len(addr), padLenOf(b, addr))
+// the padding length is whatever varint the frame itself declares after the address
+//@ spec func padLenOf(b, addr) = sval(b, 2 + vlen(len(addr)) + len(addr))
+
+//@ func WriteTCPRequest
+//@   props C04
+//@   requires w != nil && len(addr) <= 1048576
+//@   ensures wcalls == old(wcalls) + 1
+//@   modifies wcalls
+
+// ReadTCPRequest over a byte source r positioned at p: w1 = width of the address
+// length L, then L address bytes, then the padding length P (width w2), then P bytes.
+//@ spec func rqL(r, p) = vval(sdata(r), p)
+//@ spec func rqW1(r, p) = vw(sel(sdata(r), p))
+//@ spec func rqP(r, p) = vval(sdata(r), p + rqW1(r, p) + rqL(r, p))
+//@ spec func rqW2(r, p) = vw(sel(sdata(r), p + rqW1(r, p) + rqL(r, p)))
+//@ guard make uint8(n) in ReadTCPRequest
+//@   props C04 C03
+//@   requires n >= 1 && n <= 2048
+//@ func ReadTCPRequest
+//@   props C04 C03
+//@   ensures isnil(ret1) ==> rqL(r, old(spos(r))) >= 1 && rqL(r, old(spos(r))) <= 2048 && rqP(r, old(spos(r))) <= 4096
+//@   ensures isnil(ret1) ==> len(ret0) == rqL(r, old(spos(r))) && forall(k, 0, len(ret0), ret0[k] == sel(sdata(r), old(spos(r)) + rqW1(r, old(spos(r))) + k))
+//@   ensures isnil(ret1) ==> spos(r) == old(spos(r)) + rqW1(r, old(spos(r))) + rqL(r, old(spos(r))) + rqW2(r, old(spos(r))) + rqP(r, old(spos(r)))
+//@   ensures !isnil(ret1) ==> len(ret0) == 0
+//@   ensures spos(r) >= old(spos(r)) && spos(r) <= old(spos(r)) + 8 + 2048 + 8 + 4096
+//@   ensures reliable(src(payload(r))) && old(spos(r)) + rqW1(r, old(spos(r))) <= slenOf(r) && old(spos(r)) < slenOf(r) && (rqL(r, old(spos(r))) == 0 || rqL(r, old(spos(r))) > 2048) ==> !isnil(ret1) && spos(r) == old(spos(r)) + rqW1(r, old(spos(r)))
+//@   ensures reliable(src(payload(r))) && old(spos(r)) < slenOf(r) && rqL(r, old(spos(r))) >= 1 && rqL(r, old(spos(r))) <= 2048 && rqP(r, old(spos(r))) <= 4096
+//@       && old(spos(r)) + rqW1(r, old(spos(r))) + rqL(r, old(spos(r))) < slenOf(r)
+//@       && old(spos(r)) + rqW1(r, old(spos(r))) + rqL(r, old(spos(r))) + rqW2(r, old(spos(r))) + rqP(r, old(spos(r))) <= slenOf(r) ==> isnil(ret1)
+//@   modifies rpos
+
+// TCPResponse: status byte, message length M (varint, width w1), M bytes, padding
+// length P (varint, width w2), P bytes.
+//@ spec func rsM(r, p) = vval(sdata(r), p + 1)
+//@ spec func rsW1(r, p) = vw(sel(sdata(r), p + 1))
+//@ spec func rsP(r, p) = vval(sdata(r), p + 1 + rsW1(r, p) + rsM(r, p))
+//@ spec func rsW2(r, p) = vw(sel(sdata(r), p + 1 + rsW1(r, p) + rsM(r, p)))
+//@ guard make uint8(n) in ReadTCPResponse
+//@   props C04 C03
+//@   requires n >= 1 && n <= 2048
+//@ func ReadTCPResponse
+//@   props C04 C03
+//@   ensures isnil(ret2) ==> rsM(r, old(spos(r))) <= 2048 && rsP(r, old(spos(r))) <= 4096 && ret0 == (sel(sdata(r), old(spos(r))) == 0)
+//@   ensures isnil(ret2) ==> len(ret1) == rsM(r, old(spos(r))) && forall(k, 0, len(ret1), ret1[k] == sel(sdata(r), old(spos(r)) + 1 + rsW1(r, old(spos(r))) + k))
+//@   ensures isnil(ret2) ==> spos(r) == old(spos(r)) + 1 + rsW1(r, old(spos(r))) + rsM(r, old(spos(r))) + rsW2(r, old(spos(r))) + rsP(r, old(spos(r)))
+//@   ensures !isnil(ret2) ==> ret0 == false && len(ret1) == 0
+//@   ensures spos(r) >= old(spos(r)) && spos(r) <= old(spos(r)) + 1 + 8 + 2048 + 8 + 4096
+//@   ensures reliable(src(payload(r))) && old(spos(r)) + 1 < slenOf(r) && old(spos(r)) + 1 + rsW1(r, old(spos(r))) <= slenOf(r) && rsM(r, old(spos(r))) > 2048 ==> !isnil(ret2) && spos(r) == old(spos(r)) + 1 + rsW1(r, old(spos(r)))
+//@   ensures reliable(src(payload(r))) && old(spos(r)) + 1 < slenOf(r) && rsM(r, old(spos(r))) <= 2048 && rsP(r, old(spos(r))) <= 4096
+//@       && old(spos(r)) + 1 + rsW1(r, old(spos(r))) + rsM(r, old(spos(r))) < slenOf(r)
+//@       && old(spos(r)) + 1 + rsW1(r, old(spos(r))) + rsM(r, old(spos(r))) + rsW2(r, old(spos(r))) + rsP(r, old(spos(r))) <= slenOf(r) ==> isnil(ret2)
+//@   modifies rpos
+
+//@ spec func rspPadLen(b, msg) = sval(b, 1 + vlen(len(msg)) + len(msg))
+//@ guard call Writer.Write(w2, b) in WriteTCPResponse
+//@   props C04
+//@   requires w2 == w && wcalls == old(wcalls) && len(b) == 1 + vlen(len(msg)) + len(msg) + vlen(rspPadLen(b, msg)) + rspPadLen(b, msg)
+//@       && b[0] == ite(ok, 0, 1) && vputAt(b, 1, len(msg)) && forall(k, 0, len(msg), b[1 + vlen(len(msg)) + k] == msg[k])
+//@       && rspPadLen(b, msg) >= 128 && rspPadLen(b, msg) < 1024 && vputAt(b, 1 + vlen(len(msg)) + len(msg), rspPadLen(b, msg))
+//@ func WriteTCPResponse
+//@   props C04
+//@   requires w != nil && len(msg) <= 1048576
+//@   ensures wcalls == old(wcalls) + 1
+//@   modifies wcalls
